@@ -30,7 +30,7 @@ def main():
     thorough = rep.tier == "thorough"
 
     # ---- spec -> code ------------------------------------------------------
-    maxlen = 8 if thorough else 7
+    maxlen = 9 if thorough else 7
     cfg = tlc.cfg_text(constants={"Vals": {1, 3, 5, 7, 9}, "Probes": set(range(0, 11)),
                                   "MaxLen": maxlen, "Mode": "export"},
                        invariants=["Emit", "Laws"])
@@ -73,7 +73,7 @@ def main():
 
     # ---- code -> spec ------------------------------------------------------
     rng = random.Random(rep.seed * 7919 + 18)
-    n_rand = 20000 if thorough else 4000
+    n_rand = 60000 if thorough else 4000
     scratch = tlc.mkscratch("c18-")
     try:
         recs = []
